@@ -15,6 +15,7 @@
 From Coq Require Import ZArith List String Bool.
 From LV Require Import Base.Conc Base.Events Base.Lin Spec.Specs Proofs.LinProofs Model.MSQueue
   Proofs.MSQueueBase Proofs.MSQueueInv Proofs.MSQueueProofs.
+From LV Require Model.RWQueue Proofs.RWQueueProofs.
 Import ListNotations.
 Local Open Scope Z_scope.
 Local Open Scope string_scope.
@@ -78,9 +79,19 @@ Theorem C06_msq_chain_wellformed_no_loss_no_dup :
 Proof. exact msq_chain. Qed.
 Print Assumptions C06_msq_chain_wellformed_no_loss_no_dup.
 
-(** non-vacuity: a concrete 3-thread run of MSQueue (item counter on, HP) in which an enqueuer is stalled
-    between its next CAS and its tail CAS, a dequeuer helps, one dequeue finds the queue empty; the history
-    has 5 completed operations, is accepted by the verified checker, and is the erasure of a valid annotated trace *)
+(** cds::container::RWQueue (two spin locks, plain head / tail pointers guarded by them), item counter on or
+    off: linearizable for every schedule; the proof establishes the mutual exclusion it relies on *)
+Theorem C06_rwqueue_linearizable :
+  forall (ic : bool) (fuel : nat) (ths : list (list RWQueue.op)) c,
+    Conc.reach (RWQueue.init_cfg ic fuel ths) c ->
+    (exists atr : list (aev Fifo), lp_valid Fifo atr /\ erase atr = hist (Conc.trace c)) /\
+    linearizable Fifo (hist (Conc.trace c)).
+Proof. intros. split; [eapply RWQueueProofs.rwq_lp_trace|eapply RWQueueProofs.rwqueue_linearizable]; eauto. Qed.
+Print Assumptions C06_rwqueue_linearizable.
+
+(** non-vacuity: a concrete 3-thread run of MSQueue (item counter on, HP) with interleaved operations: one
+    dequeue finds the queue empty, another thread dequeues the value 10; the history has 5 completed
+    operations and is accepted by the verified checker *)
 Example C06_msqueue_nonvacuous :
   let r := MSQueue.run_case [0; 1; 1; 100] [[[1;10]; [2]]; [[2]; [1;20]]; [[2]]]
              [1;1;1;1;1;1;1;1;1;1;1;1;1;0;0;0;0;0;0;0;0;2;2;2;2;2;2;2;2;2;2;2;2;2;2;2;2;2;2;2;2]%nat 2000 in
@@ -94,6 +105,14 @@ Proof. vm_compute. repeat split; auto 20. Qed.
 Example C06_moirqueue_nonvacuous :
   let r := MSQueue.run_case [1; 0; 0; 100] [[[1;10]; [2]]; [[2]; [1;20]]; [[2]]]
              [1;1;1;1;1;1;1;1;1;1;1;1;1;0;0;0;0;0;0;0;0;2;2;2;2;2;2;2;2;2;2;2;2;2;2;2;2;2;2;2;2]%nat 2000 in
+  snd r = true /\
+  List.length (hist (fst r)) = 10%nat /\
+  lincheck Fifo (hist (fst r)) = true.
+Proof. vm_compute. repeat split; auto. Qed.
+
+Example C06_rwqueue_nonvacuous :
+  let r := RWQueue.run_case [0; 1; 1; 100] [[[1;10]; [2]]; [[2]; [1;20]]; [[2]]]
+             [1;1;0;0;1;0;2;2;0;1;1;2;2;0;0;1;1;2;0;0;0;1;1;1]%nat 2000 in
   snd r = true /\
   List.length (hist (fst r)) = 10%nat /\
   lincheck Fifo (hist (fst r)) = true.
